@@ -62,6 +62,9 @@ MUTS = [
  ('M45 to_cs: input not set', "                cb.set_input(from_comp, i)", "                pass"),
  ('M46 to_cs: matched term not removed from the source equation', "neweq.lhs, sympy.expand(xrhs + term)  # pyright: ignore", "neweq.lhs, sympy.expand(xrhs)  # pyright: ignore"),
  ('M47 subs relabels into a new graph (node order kept)', "        nx.relabel_nodes(cb._g, mapping, copy=False)\n        return CompartmentalSystem(cb)", "        cb._g = nx.relabel_nodes(cb._g, mapping, copy=True)\n        return CompartmentalSystem(cb)"),
+ ('M48 get_compartment_inflows walks successors', "        for node in self._g.predecessors(destination):\n            flow = self.get_flow(node, destination)", "        for node in self._g.successors(destination):\n            flow = self.get_flow(node, destination)"),
+ ('M49 get_bidirectionals without the has_edge test', "            if self._g.has_edge(compartment, node):\n                comps.append(node)", "            if True:\n                comps.append(node)"),
+ ('M50 get_n_connected counts output', "return len((out_comps | in_comps) - {output})", "return len(out_comps | in_comps)"),
 ]
 
 
